@@ -12,7 +12,14 @@ HISTORIES (Props/C17_Life.lean): the same comparison for every parser object the
 2-4 documents in a row (chapters of one EPUB; consecutive read_html / read_mhtml / MSG-body calls), some of which end
 inside a removed element that is never closed or in the middle of a markup construct: one new object per document, state
 after every real feed = model run from `init`, = right-hand side of `C17_book`; and the property oracle on histories
-(confirmed and shrunk in a new interpreter, because state kept at module / class level outlives the document)."""
+(confirmed and shrunk in a new interpreter, because state kept at module / class level outlives the document).
+
+INPUT FORM (one driver: Props/C17_Life.lean gen_handlers_driven_by_feed_only, gen_state_written_by_modelled_handlers_only):
+every document of the grammar is ALSO rendered as well-formed XHTML (one namespaced root, XML declaration / DOCTYPE, all
+elements closed, voids and empty removable elements self-closed, attributes valued and unique, raw text escaped; accepted
+by ElementTree - checked per document), so that a reader which picks its parsing route by the form of the input (XML
+tree walk, pre-pass, other tokeniser) is judged by the property oracle on that route through all four paths, singly and
+as histories; the spy counts handler calls that reach a parser object from outside HTMLParser.feed."""
 from __future__ import annotations
 
 import base64
@@ -35,7 +42,11 @@ RULE = ("documents = flat sequences of visible items (text, open/close/self-clos
         "element that is never closed (non-raw and raw-text names, nested same-name starts), in the middle of a tag / "
         "comment / CDATA section (truncated), read as the chapters of one EPUB and as consecutive read_html / read_mhtml / "
         "MSG-body calls of one process; every parser object the real readers create is observed (constructions, feeds, "
-        "state after each feed)")
+        "state after each feed).  XHTML RENDITIONS: the same documents made well-formed XML (namespaced root, optional XML "
+        "declaration / DOCTYPE, unclosed tags closed at their parent's end, stray end tags dropped, voids and empty removable "
+        "elements self-closed, attributes valued and de-duplicated, raw-text content escaped, comments without '--'), each "
+        "checked with ElementTree; judged end to end on the four paths and, as 2-3 document histories, by the lifecycle / "
+        "per-feed comparison (one object, one feed, no handler call from outside feed)")
 ASSUMPTIONS = [
     "html.parser.HTMLParser (CPython 3.12) turns text into handler calls; its tokenisation (incl. CDATA mode for "
     "script/style, lower-casing of tag names) is not modelled - the model starts at the handler calls",
@@ -466,6 +477,130 @@ def _merge(evs):
     return out
 
 
+# ----------------------------------------------------------------------------- well-formed XHTML renditions
+# The SAME grammar, serialised the way an XML toolchain writes a content document: one root element with the XHTML
+# namespace, optional XML declaration / DOCTYPE, every element closed (unclosed tags closed where their parent ends, stray
+# end tags dropped), void elements and empty removable elements in the self-closing form, every attribute with a value and
+# no duplicate names, raw-text content (script / style) escaped, comments without "--".  Such a document is accepted by an
+# XML parser (checked with ElementTree for every generated document), so a reader that chooses its parsing route by the
+# FORM of the input (well-formed XML -> tree walk / other tokeniser, tag soup -> html.parser) is exercised on both routes.
+def _wf_attrs(attrs):
+    seen, out = set(), []
+    for k, v in attrs:
+        if k not in seen:
+            seen.add(k)
+            out.append([k, "" if v is None else v])
+    return out
+
+
+def _wf_comment(s):
+    s = s.replace("--", "- -")
+    return s + " " if s.endswith("-") else s
+
+
+def _wf_events(evs, raw_all=False):
+    """content of a removed element made well-formed (hidden tokens stay inside it)"""
+    out, stack, raw = [], [], None
+    for e in evs:
+        k = e[0]
+        if k == "d":
+            out.append(["d", _html.escape(e[1], quote=False)] if (raw_all or raw is not None) else list(e))
+        elif k == "s":
+            if e[1] in STD_VOID:
+                out.append(["se", e[1], _wf_attrs(e[2])])
+            else:
+                stack.append(e[1])
+                out.append(["s", e[1], _wf_attrs(e[2])])
+                if e[1] in RAWTEXT:
+                    raw = e[1]
+        elif k == "e":
+            if e[1] == raw:
+                raw = None
+            if e[1] in stack:
+                while True:
+                    t = stack.pop()
+                    out.append(["e", t])
+                    if t == e[1]:
+                        break
+        elif k == "se":
+            out.append(["se", e[1], _wf_attrs(e[2])])
+        elif k == "c":
+            out.append(["c", _wf_comment(e[1])])
+        else:
+            out.append(list(e))
+    while stack:
+        out.append(["e", stack.pop()])
+    return out
+
+
+def _wf_items(items):
+    out, stack = [], []
+    for it in items:
+        k = it[0]
+        if k == "text":
+            out.append(list(it))
+        elif k == "open":
+            if it[1] in STD_VOID:
+                out.append(["selfclosed", it[1], _wf_attrs(it[2])])
+            else:
+                stack.append(it[1])
+                out.append(["open", it[1], _wf_attrs(it[2])])
+        elif k == "close":
+            if it[1] in stack:
+                while True:
+                    t = stack.pop()
+                    out.append(["close", t])
+                    if t == it[1]:
+                        break
+        elif k == "selfclosed":
+            out.append(["selfclosed", it[1], _wf_attrs(it[2])])
+        elif k == "removed":
+            out.append(["removed", it[1], _wf_attrs(it[2]), _wf_events(it[3], raw_all=it[1] in RAWTEXT)])
+        elif k == "removedEmpty":
+            out.append(["removedEmpty", it[1], _wf_attrs(it[2]), True])
+        elif k == "comment":
+            out.append(["comment", _wf_comment(it[1])])
+        elif k == "pi":
+            out.append(list(it))
+        # "ud" (a CDATA section is character data in XML, a bogus comment in HTML) and "decl" are left out
+    while stack:
+        out.append(["close", stack.pop()])
+    return out
+
+
+XHTML_NS = "http://www.w3.org/1999/xhtml"
+
+
+def is_wellformed(text):
+    import xml.etree.ElementTree as ET
+    try:
+        ET.fromstring(text.encode("utf-8"))
+        return True
+    except Exception:
+        return False
+
+
+def gen_xhtml_doc(rng, **kw):
+    """(items, tokens): a document of the grammar whose rendering is well-formed XHTML"""
+    kw.setdefault("full", False)
+    body, tk = gen_doc(rng, **kw)
+    out = []
+    if rng.random() < 0.7:
+        out.append(["pi", 'xml version="1.0" encoding="utf-8"?'])
+    if rng.random() < 0.3:
+        out.append(["decl", "DOCTYPE html"])
+    out.append(["open", "html", [["xmlns", XHTML_NS]] + ([["lang", "en"]] if rng.random() < 0.5 else [])])
+    if rng.random() < 0.8:
+        out += [["open", "head", []], ["open", "title", []], ["text", "T " + tk.v()], ["close", "title"]]
+        for _ in range(rng.choice((0, 0, 1))):
+            out += _wf_items([_hidden_item(rng, tk)])
+        out.append(["close", "head"])
+    out.append(["open", "body", []])
+    out += _wf_items(body)
+    out += [["close", "body"], ["close", "html"]]
+    return out, tk
+
+
 # ----------------------------------------------------------------------------- containers
 def wrap_mhtml(html_text):
     b = base64.encodebytes(html_text.encode("utf-8")).decode("ascii")
@@ -660,8 +795,87 @@ WITNESSES = {
 }
 
 
-def known_witnesses(ctx):
+# ----------------------------------------------------------------------------- encoding prescan (Props/C17_Charset.lean)
+CHARSET_KEY = "html.charset-sniffed-in-removed-content"
+_CS_PRE, _CS_POST = "<html><head>", "</head><body><p>vis0000q caf\u00e9</p></body></html>"
+CHARSET_WITNESSES = {  # Props/C17_Charset.lean: charset_cex_comment / _script / _noscript
+    "charset-in-comment": '<!-- <meta charset="latin-1"> -->',
+    "charset-in-script": "<script>var m = '<meta charset=\"latin-1\">';</script>",
+    "charset-in-noscript": "<noscript><META http-equiv=x content='text/html; charset=cp1252'></noscript>",
+}
+
+
+def _charset_witnesses():
+    """read_html sniffs `<meta … charset=` with a byte regex BEFORE parsing, so the content of a comment / removed element
+    decides how the visible text is decoded.  Open known finding: reported under its own key when (and only when) the
+    document without the removed markup is extracted correctly and the document with it loses the non-ASCII text."""
     vs = []
+    for name, hidden in CHARSET_WITNESSES.items():
+        case = {"html": _CS_PRE + hidden + _CS_POST, "stripped": _CS_PRE + _CS_POST, "visible": ["vis0000q", "caf\u00e9"], "hidden": []}
+        for path in ("html", "mhtml"):
+            if oracle(path, case["stripped"], case["visible"], [], None):
+                continue
+            fs = oracle(path, case["html"], case["visible"], [], case["stripped"])
+            if fs:
+                vs.append(Violation(CHARSET_KEY if path == "html" else CHARSET_KEY.replace("html.", path + ".", 1),
+                                    f"{fs[0][1]} [witness {name}]: the encoding prescan of read_html reads a charset declaration "
+                                    f"out of removed content :: input {case['html']!r}", dict(case, path=path)))
+                break
+    return vs[:1]
+
+
+_CS_BITS = ["<meta", "<META", "<Meta ", "<met", "a", " charset=", " CHARSET=", "charset=", '"utf-8"', "'latin-1'", "koi8-r", "cp1252;", ">", ">",
+            " ", "\n", "\t", '"', "'", "=", " http-equiv=x content=\"text/html; charset=cp1252\"", "<!--", "-->", "<script>", "</script>",
+            "<noscript>", "</noscript>", "<p>", "caf\u00e9", "<head>", "name=a", "/", "<", "\x0b", "\x0c", "\r", "x" * 40]
+
+
+def gen_prescan(rng):
+    n = rng.choice((1, 2, 3, 5, 8, 12))
+    t = "".join(rng.choice(_CS_BITS) for _ in range(n))
+    if rng.random() < 0.6:  # near-matches: <meta, a run that may or may not contain '>', charset=, optional quote, a value or none
+        t = (rng.choice(("", "<p>", "<!-- ", "<script>'", "<meta>", "<meta ", t)) + rng.choice(("<meta", "<META", "<mEtA", "<met", "< meta"))
+             + rng.choice((" ", "", "\n", " name=a ", " a>b ", " charset= ", ' charset="" ', " charset=x ", "/")) + rng.choice(("charset=", "CharSet=", "charset =", "charset"))
+             + rng.choice(('"', "'", "", "", '"\'', " ")) + rng.choice(("utf-8", "latin-1", "caf\u00e9", "", ">", "a b", "x'y", "k\x0cl"))
+             + rng.choice(('"', "'", "", ">", " -->", "';</script>")) + rng.choice(("", t, "<meta charset=second>")))
+    r = rng.random()
+    if r < 0.06:    # the 8 KiB window
+        t = " " * rng.choice((8170, 8180, 8186, 8187, 8190, 8200)) + t
+    return t.encode("utf-8")
+
+
+def _prescan_correspondence(ctx, broken):
+    """Model/HtmlCharset.lean `sniff` = what read_html's regex finds in the first 8192 bytes (the constant and the window are
+    read from the current source: a changed regex / window shows here)"""
+    import inspect
+    from sharepoint2text.parsing.extractors import html_extractor as hx
+    rx = getattr(hx, "_RE_CHARSET_ATTR_BYTES", None)
+    src = inspect.getsource(hx.read_html)
+    if rx is None or "_RE_CHARSET_ATTR_BYTES.search(content[:8192])" not in src:
+        broken.append(Broken("correspondence", "c17.sniff", "read_html no longer sniffs the encoding with "
+                             "_RE_CHARSET_ATTR_BYTES.search(content[:8192]): Model/HtmlCharset.lean models that call"))
+        return
+    blobs = [(_CS_PRE + h + _CS_POST).encode("utf-8") for h in CHARSET_WITNESSES.values()] + [(_CS_PRE + _CS_POST).encode("utf-8")]
+    blobs += [gen_prescan(ctx.rng) for _ in range(ctx.n(300, 6000))]
+    outs = ctx.drive([{"op": "c17.sniff", "t": b.decode("latin-1")} for b in blobs])
+    bad = 0
+    for b, o in zip(blobs, outs):
+        m = rx.search(b[:8192])
+        real = m.group(1).decode("ascii", errors="ignore") if m else None
+        ctx.case(("sniff", b), nontrivial=b"<met" in b.lower())
+        ctx.count("sniff/found" if m else "sniff/none")
+        if "drv_error" in o:
+            broken.append(Broken("correspondence", "driver", o["drv_error"], case={"bytes": b.decode("latin-1")}))
+            continue
+        model = None if o["v"] is None else "".join(c for c in o["v"] if ord(c) < 128)
+        if model != real:
+            bad += 1
+            if bad <= 3:
+                broken.append(Broken("correspondence", "c17.sniff", f"prescan model {model!r} != regex {real!r} on {b[:200]!r}"))
+    ctx.coverage["sniff_mismatches"] = bad
+
+
+def known_witnesses(ctx):
+    vs = _charset_witnesses()
     for name, hist in HISTORY_WITNESSES.items():
         vs += _history_violations(hist, tag=f" [witness {name}]", shrink=False)
     for name, (h, vis, hid) in WITNESSES.items():
@@ -858,7 +1072,25 @@ def correspondence(ctx):
             ctx.count(f"e2e/{path}")
             for kind, what in fs:
                 violations.append(_report(path, kind, what, items, tk, c))
+    # end-to-end on the well-formed XHTML renditions (the route a reader takes for input an XML parser accepts), four paths
+    n_wf = 0
+    for i in range(ctx.n(150, 2500)):
+        items, tk = gen_xhtml_doc(rng, p_hidden=rng.choice((0.3, 0.6)), blocks=rng.choice((1, 2, 3, 4)))
+        case = doc_case(items, tk)
+        wf = is_wellformed(case["html"]) and is_wellformed(case["stripped"])
+        n_wf += wf
+        ctx.count("xhtml/well-formed" if wf else "xhtml/NOT-well-formed")
+        for path in PATHS:
+            fs = oracle(path, case["html"], case["visible"], case["hidden"], case["stripped"])
+            ctx.case(("e2e-xhtml", path, case["html"]))
+            ctx.count(f"e2e-xhtml/{path}")
+            for kind, what in fs:
+                violations.append(_report(path, kind, what + " [well-formed XHTML rendition]", items, tk, case))
+    if n_wf * 10 < ctx.n(150, 2500) * 9:
+        broken.append(Broken("correspondence", "c17.xhtml-generator", f"only {n_wf} of {ctx.n(150, 2500)} XHTML renditions are "
+                             "accepted by ElementTree: the well-formed route is not exercised"))
     _history_correspondence(ctx, broken, violations)
+    _prescan_correspondence(ctx, broken)
     return {"broken": broken, "violations": violations}
 
 
@@ -922,7 +1154,21 @@ def render_chapter(ch, stripped=False):
     return s + ch["cut"]
 
 
+def gen_xhtml_history(rng):
+    """2-3 well-formed XHTML documents (complete: a well-formed document cannot end inside an element)"""
+    out = []
+    for i in range(rng.choice((2, 2, 3))):
+        items, tk = gen_xhtml_doc(rng, p_hidden=rng.choice((0.3, 0.6)), blocks=rng.choice((1, 2, 3)))
+        blob = json.dumps(items)
+        ren = {t: t.replace("q", f"d{i}q") for t in tk.vis + tk.hid}
+        blob = re.sub(r"(vis|hid)(\d{4})q", lambda m: ren.get(m.group(0), m.group(0)), blob)
+        out.append({"doc": json.loads(blob), "tail": None, "cut": "", "vis": [ren[t] for t in tk.vis], "hid": [ren[t] for t in tk.hid]})
+    return out
+
+
 def gen_history(rng):
+    if rng.random() < 0.2:
+        return gen_xhtml_history(rng)
     n = rng.choice((2, 2, 3, 3, 4))
     chs = [gen_chapter(rng, p_tail=rng.choice((0.4, 0.8)), p_hidden=rng.choice((0.15, 0.35)), blocks=rng.choice((1, 2, 3)),
                        full=rng.random() < 0.5) for _ in range(n)]
@@ -984,7 +1230,8 @@ def _extract_history(path, htmls):
 
 def _msg_wrap(h):
     # prefix only: the document may end inside a removed element / an incomplete construct, which must stay its end
-    return h if h.startswith(("<!DOCTYPE", "<html")) else "<html><body>" + h
+    # (an XHTML rendition starts with the XML declaration and has its own root: wrapping it would move its <title> into a body)
+    return h if h.startswith(("<!DOCTYPE", "<html", "<?xml")) else "<html><body>" + h
 
 
 def oracle_history(path, hist):
@@ -1197,6 +1444,11 @@ class _Spy:
     def __init__(self):
         self.feeds = []   # (machine, object serial, feed number on that object, events of this feed, snapshot after it)
         self.made = []    # (machine, serial)
+        self.objs = []    # the parser objects themselves (handler calls that did not come from a feed are counted on them)
+
+    def outside_feed(self, machine):
+        """handler calls some parser object of `machine` received from something other than HTMLParser.feed"""
+        return sum(len(o._c17_log) - o._c17_infeed for o in self.objs if o._m == machine)
 
     def __enter__(self):
         import sys as _sys
@@ -1213,6 +1465,8 @@ class _Spy:
                     self._c17_serial = len(spy.made)
                     self._c17_nfeeds = 0
                     spy.made.append((self._m, self._c17_serial))
+                    self._c17_infeed = 0
+                    spy.objs.append(self)
 
                 def feed(self, data):
                     k0 = len(self._c17_log)
@@ -1220,6 +1474,7 @@ class _Spy:
                         return super().feed(data)
                     finally:
                         self._c17_nfeeds += 1
+                        self._c17_infeed += len(self._c17_log) - k0
                         snap = _snapshot(self._m, self)
                         snap["trace"] = snap["trace"][k0:]
                         spy.feeds.append((self._m, self._c17_serial, self._c17_nfeeds, json.loads(json.dumps(self._c17_log[k0:])), snap))
@@ -1273,13 +1528,17 @@ def _history_correspondence(ctx, broken, violations):
             ctx.case(("history", reader, json.dumps(htmls)))
             # lifecycle as observed: one new object per document, fed once
             serials = [f[1] for f in feeds]
-            if len(feeds) != len(htmls) or len(set(serials)) != len(serials) or any(f[2] != 1 for f in feeds):
+            stray = spy.outside_feed(machine)
+            if stray:
+                ctx.count(f"history/{reader}/handler-calls-outside-feed")
+            if len(feeds) != len(htmls) or len(set(serials)) != len(serials) or any(f[2] != 1 for f in feeds) or stray:
                 life_bad += 1
                 if life_bad <= 4:
                     broken.append(Broken("correspondence", "c17.lifecycle",
                                          f"reader={reader}: {len(htmls)} documents were read with {len(set(serials))} parser object(s) and "
-                                         f"{len(feeds)} feed(s) (feeds per object: {[f[2] for f in feeds]}); the model is one new parser per document",
-                                         case=dict(case, reader=reader)))
+                                         f"{len(feeds)} feed(s) (feeds per object: {[f[2] for f in feeds]}), {stray} handler call(s) reached a "
+                                         f"parser object from outside HTMLParser.feed; the model is one new parser per document, driven by "
+                                         f"one feed", case=dict(case, reader=reader)))
             for k, f in enumerate(feeds):
                 if not _jsonable(f[3]):
                     continue
@@ -1397,6 +1656,19 @@ def search(ctx, broken):
                 if key not in found or len(v.replay["html"]) < len(found[key].replay.get("html", "")):
                     found[key] = v
         if len(found) >= 6 and i > 150:
+            break
+    for i in range(ctx.n(300, 4000)):
+        items, tk = gen_xhtml_doc(rng, p_hidden=rng.choice((0.3, 0.6)), blocks=rng.choice((1, 2, 3)))
+        case = doc_case(items, tk)
+        for path in ("html", "epub") if i % 4 else PATHS:
+            for kind, what in oracle(path, case["html"], case["visible"], case["hidden"], case["stripped"]):
+                key = f"{path}.{kind}"
+                if key in found and len(found[key].replay.get("html", "")) <= 400:
+                    continue
+                v = _report(path, kind, what + " [well-formed XHTML rendition]", items, tk, case)
+                if key not in found or "html" not in found[key].replay or len(v.replay["html"]) < len(found[key].replay["html"]):
+                    found[key] = v
+        if i > 100 and any(len(v.replay.get("html", "")) <= 400 for v in found.values()):
             break
     return _drop_explained(list(found.values()))
 
